@@ -221,8 +221,48 @@ def layout_files(tier, rng):
     return files
 
 
-def gen_bat_cases(tier, rng):
+def prefix_name_files(rng):
+    """schemas whose column names are proper prefixes / extensions of each other, in both orders, with columns of
+    different types, nullability and content, so that a name resolved to the wrong column is visible"""
+    files = []
+    for names in (["ts_ms", "ts", "t", "ts_ms_x"], ["t", "ts", "ts_ms", "ts_ms_x"], ["value", "val", "va"]):
+        tys = ["i64", "i32?", "ba", "f64?", "i32"]
+        cols = [Col(nm, tys[i % len(tys)].rstrip("?"), tys[i % len(tys)].endswith("?")) for i, nm in enumerate(names)]
+        n = 5
+        rg = []
+        for i, c in enumerate(cols):
+            sizes = rng.choice(rc.compositions(n, 3))
+            mask = rc.safe_nullmask(n, rng, "alt") if c.nullable else [False] * n
+            rg.append(rc.make_chunk(c.typ, mask, sizes, base=10 * i))
+        files.append(FileSpec(0, cols, [rg]))
+    return files
+
+
+def gen_name_cases(tier, rng):
+    """by-name projections on such schemas: every name alone, pairs in both orders, and names that do not exist but are
+    prefixes / extensions / case variants of existing ones (must be refused with COLUMN_NOT_FOUND)"""
     cases = []
+    for fs in prefix_name_files(rng):
+        names = [c.name for c in fs.cols]
+        for c in range(len(names)):
+            cases.append(col_case(fs, 0, c, "f", "r6", "ref"))
+        projs = [([nm], [i]) for i, nm in enumerate(names)]
+        projs += [([a, b], [i, j]) for i, a in enumerate(names) for j, b in enumerate(names) if i != j]
+        projs.append((list(reversed(names)), list(reversed(range(len(names))))))
+        ghosts = sorted({nm[:k] for nm in names for k in range(1, len(nm))} - set(names)) + \
+                 [nm + "_" for nm in names if nm + "_" not in names] + [nm.upper() for nm in names] + [names[-1] + "x"]
+        for g in ghosts:
+            projs.append(([g], None))
+            projs.append(([names[0], g], None))
+        for pn, pcols in projs:
+            for bs in (2, 6):
+                for mode in "fmb":
+                    cases.append(bat_case(fs, mode, bs, "n:" + ",".join(pn), pcols, "names"))
+    return cases
+
+
+def gen_bat_cases(tier, rng):
+    cases = gen_name_cases(tier, rng)
     for fs in layout_files(tier, rng):
         nc = len(fs.cols)
         rows_max = max(sum(len(p) for p in rg[0]) for rg in fs.rgs)
@@ -404,6 +444,12 @@ def check_bat(c, out, refs, tally):
     if out.startswith("FAULT"):
         tally.violation("the batch reader died on this configuration (sanitizer report or signal)", {"case": c.line})
         return
+    if c.pcols is None:
+        # a projection naming a column that does not exist (a prefix / extension / case variant of existing names)
+        if out.split()[:3] != ["ERR", "create", "61"]:
+            tally.violation(f"projection by a name that no column has ({c.proj}) is not refused with COLUMN_NOT_FOUND: {out[:200]}",
+                            {"case": c.line, "got": out})
+        return
     p = rc.parse_batches(out)
     if p is None:
         tally.violation(f"batch reader refused a valid configuration: {out[:200]}", {"case": c.line})
@@ -452,8 +498,9 @@ def check_bat(c, out, refs, tally):
     for ci in range(len(c.pcols)):
         if got[ci] != content[ci]:
             tally.violation(
-                f"concatenation of the batches of projected column {ci} (file column {c.pcols[ci]}) differs from the "
-                f"column-reader content: {got[ci]} vs {content[ci]}", {"case": c.line, "got": out})
+                f"concatenation of the batches of projected column {ci} (file column {c.pcols[ci]}"
+                + (f", the column the name '{c.proj[2:].split(',')[ci]}' denotes" if c.proj.startswith("n:") else "") +
+                f") differs from the column-reader content: {got[ci]} vs {content[ci]}", {"case": c.line, "got": out})
             return
     if life is not True:
         tally.violation("data handed out in a batch changed before the reader was closed", {"case": c.line, "got": out})
@@ -632,4 +679,5 @@ def proj_cols(fs, proj):
     if proj.startswith("i:"):
         return [int(x) for x in proj[2:].split(",")]
     names = [c.name for c in fs.cols]
-    return [names.index(x) for x in proj[2:].split(",")]
+    want = proj[2:].split(",")
+    return [names.index(x) for x in want] if all(x in names for x in want) else None
